@@ -111,3 +111,73 @@ def strval(t):
         if t[0] in ('K', 'der'):
             t = t[1]
     return t
+
+
+# ---- form-agnostic helpers: the same iteration written as a closure (`iter().for_each(|x| ..)`) or as a `for` loop -----------------
+def tmap(t, f):
+    """rebuild term t, replacing every sub-term x for which f(x) is not None (outermost first)"""
+    if not isinstance(t, tuple):
+        return t
+    r = f(t)
+    if r is not None:
+        return r
+    return tuple(tmap(x, f) for x in t)
+
+
+def subst_upvars(t, snaps):
+    """replace reads of captured variables in a closure-body term by the values the parent had when it built the closure"""
+    def f(x):
+        if len(x) == 2 and x[0] == 'der' and isinstance(x[1], tuple) and len(x[1]) == 3 and x[1][0] == 'fld' and isinstance(x[1][2], str) and x[1][2].startswith('upvar'):
+            k = int(x[1][2][5:])
+            return snaps[k] if k < len(snaps) else None
+        if len(x) == 3 and x[0] == 'fld' and isinstance(x[2], str) and x[2].startswith('upvar'):
+            k = int(x[2][5:])
+            return snaps[k] if k < len(snaps) else None
+        return None
+    return tmap(t, f)
+
+
+def strip_refs_t(t):
+    while isinstance(t, tuple) and t and t[0] in ('ref', 'der'):
+        t = t[1]
+    return t
+
+
+def iteration_bodies(facts, name, outs, engine=None, adapters=('for_each',)):
+    """Per-element bodies of `name`, whichever way the iteration is written.
+
+    Returns a list of dicts {form, where, elem, events, conds}: for a closure handed to an iterator adapter the closure's outcomes with
+    captured variables substituted by the parent's values (elem = the closure's argument); for a loop the parent's own back-edge
+    outcomes restricted to the events after the loop head (elem = None: the element is whatever `next()` produced on that path)."""
+    from sa.sym import Engine as _E
+    bodies = []
+    seen = set()
+    for o in outs:
+        for e in o.events:
+            if e[0] == 'closure' and e[1].startswith(name) and (e[1], tuple(e[2]), tuple(o.conds[:e[3]])) not in seen:
+                seen.add((e[1], tuple(e[2]), tuple(o.conds[:e[3]])))
+                eng = engine() if engine else _E(facts)
+                try:
+                    couts = eng.run(e[1])
+                except Exception:
+                    continue
+                for co in couts:
+                    if co.kind not in ('return', 'backedge'):
+                        continue
+                    evs = [subst_upvars(x, e[2]) for x in co.events]
+                    cs = [(subst_upvars(a, e[2]), v) for a, v in co.conds]
+                    bodies.append({'form': 'closure', 'where': e[1], 'elem': ('p', 2), 'events': evs, 'conds': cs, 'parent_conds': list(o.conds[:e[3]]),
+                                   'value': subst_upvars(co.value, e[2]) if isinstance(co.value, tuple) else co.value})
+    for o in outs:
+        if o.kind != 'backedge' or not o.where:
+            continue
+        heads = [i for i, e in enumerate(o.events) if e[0] == 'loop_head' and e[2] == o.where[1]]
+        if not heads:
+            continue
+        evs = o.events[heads[-1]:]
+        key = (o.where, tuple(x for x in evs if x[0] == 'call'), tuple(o.conds))
+        if key in seen:
+            continue
+        seen.add(key)
+        bodies.append({'form': 'loop', 'where': '%s@bb%s' % o.where, 'elem': None, 'events': evs, 'conds': list(o.conds), 'parent_conds': [], 'value': None})
+    return bodies
